@@ -184,6 +184,12 @@ class SymExec:
                 new.values.append(value)
                 env[nm] = new
                 return env
+            if not isinstance(target.slice, ast.Slice) and (nm in env or nm in self.params) and not isinstance(cur, ast.Dict):
+                # an item store on something that is not a dict display: recorded as a layer `<setitem>(object, key, value)`
+                env = dict(env)
+                base = copy.deepcopy(cur) if cur is not None else ast.Name(id=nm, ctx=ast.Load())
+                env[nm] = ast.Call(func=ast.Name(id='<setitem>', ctx=ast.Load()), args=[base, self.subst(target.slice, env), value], keywords=[])
+                return env
             if nm in env:
                 return self._havoc(env, {nm}, at)
             return env
@@ -631,3 +637,27 @@ def leaves(e: ast.AST, facts=()):
         out += leaves(e.orelse, tuple(facts) + tuple(nnf_atoms(e.test, False)))
         return out
     return [(list(facts), e)]
+
+
+def item_layers(e: ast.AST, facts=()):
+    """An object built by item stores, possibly conditional: (base, [(key, value, facts)]).  `e` is the gated value of
+    the object: `<setitem>(<setitem>(base, k1, v1) if c else base, k2, v2)` ..."""
+    from .match import nnf_atoms
+    if isinstance(e, ast.Call) and isinstance(e.func, ast.Name) and e.func.id == '<setitem>' and len(e.args) == 3:
+        base, items = item_layers(e.args[0], facts)
+        return base, items + [(e.args[1], e.args[2], list(facts))]
+    if isinstance(e, ast.IfExp):
+        ta, tb = tuple(nnf_atoms(e.test, True)), tuple(nnf_atoms(e.test, False))
+        ba, ia = item_layers(e.body, tuple(facts) + ta)
+        bb, ib = item_layers(e.orelse, tuple(facts) + tb)
+        if ast.dump(ba) == ast.dump(bb):
+            def same(x, y):
+                return ast.dump(x[0]) == ast.dump(y[0]) and ast.dump(x[1]) == ast.dump(y[1])
+            common = [x for x in ia if any(same(x, y) for y in ib)]
+            only_a = [x for x in ia if x not in common]
+            only_b = [x for x in ib if not any(same(x, y) for y in ia)]
+            here = {(ast.dump(a_), tr) for (a_, tr) in ta + tb}
+            # an item set in both arms does not depend on this test: drop the atoms this level added
+            merged = [(k, v, [ft for ft in f_ if (ast.dump(ft[0]), ft[1]) not in here]) for (k, v, f_) in common]
+            return ba, merged + only_a + only_b
+    return e, []
